@@ -8,15 +8,15 @@ _SCN = ["harness/c14_oom.cc", "harness/c14_scn_cont.cc", "harness/c14_scn_poly.c
 HARNESSES = {
     "c14_oom": {"src": _SCN, "variant": "prod", "flags": NOAC, "opt": ["-O1", "-DNDEBUG=1"]},
     "c14_i8":  {"src": _SCN, "variant": "i8", "flags": NOAC, "opt": ["-O1", "-DNDEBUG=1"]},
-    "c14_rej": {"src": ["harness/c14_rej.cc"], "variant": "prod", "flags": NOAC, "opt": ["-O1", "-DNDEBUG=1"]},
+    "c14_rej": {"src": ["harness/c14_rej.cc", "harness/c14_rej_dom.cc"], "variant": "prod", "flags": NOAC, "opt": ["-O1", "-DNDEBUG=1"]},
 }
 
 def _runs(tier):
     if tier == "quick":
         return [
-            {"harness": "c14_rej", "args": [], "budget": 200, "jobs": 4},
-            {"harness": "c14_oom", "args": ["--modes", "alloc,abandon"], "budget": 240, "jobs": 12},
-            {"harness": "c14_i8", "args": ["--modes", "overflow"], "budget": 200, "jobs": 4},
+            {"harness": "c14_rej", "args": [], "budget": 240, "jobs": 4},
+            {"harness": "c14_oom", "args": ["--modes", "alloc,abandon", "--max-allocs", "1000"], "budget": 260, "jobs": 12},
+            {"harness": "c14_i8", "args": ["--modes", "overflow"], "budget": 240, "jobs": 4},
         ]
     return [
         {"harness": "c14_rej", "args": [], "budget": 600, "jobs": 4},
@@ -30,6 +30,7 @@ CHECKS = {
         "runs": _runs,
         "level": "fault_enumeration",
         "deadline": {"quick": 280, "thorough": 2600},
+        "parallel_runs": 1,
         "rule": ("Exhaustive fault enumeration on the real library. (a) Resource exhaustion: every scenario of a fixed list "
                  "(domain operations in representative states + the row/tree/matrix containers) is run once per allocation "
                  "index k = 1..N, N = allocation requests (operator new, new[], nothrow forms, GMP alloc/realloc) of its dry "
